@@ -132,7 +132,7 @@ def h_written_parameters_win(ctx):
               "topic \"weather\" expects topic=\"weather\" and advances although the written value does not match" % kinds, line=fn.lineno)
 
 
-def e_literal_text_verbatim(ctx):
+def e_literal_text_verbatim(ctx, rule="C04.e.literal-text-verbatim", EVAL=EVAL):
     """`equal scalars`: the text of a string literal written in a statement is data.  eval_expression rewrites `$name` to `var_name` before it evaluates; done over the whole
     expression text this also rewrites the inside of string literals - `match ...(final_transcript="how much is $AAPL today")` then waits for "how much is var_AAPL today"
     and never matches the equal transcript (F124; the same evaluator binds arguments, defaults and return values, see C08).  The substitution must skip string literals."""
@@ -143,13 +143,13 @@ def e_literal_text_verbatim(ctx):
     subs = [c for c in walk_no_nested(fn) if isinstance(c, ast.Call) and src(c.func) == "re.sub" and len(c.args) >= 3 and (
         "var_" in src(c.args[1]) or (isinstance(c.args[1], ast.Name) and any(
             isinstance(f, (ast.FunctionDef, ast.Lambda)) and getattr(f, "name", None) == c.args[1].id and "var_" in src(f) for f in ast.walk(fn))))]
-    ctx.floor("C04.e.literal-text-verbatim", EVAL, "rewriting of `$name` into evaluator names", len(subs), 1)
+    ctx.floor(rule, EVAL, "rewriting of `$name` into evaluator names", len(subs), 1)
     for c in subs:
         pat = c.args[0]
         txt = src(pat)
         # the pattern also matches whole string literals (so that they can be returned unchanged), or the substitution runs on the non-literal segments only
         skips = "string_pattern" in txt or any(isinstance(x, ast.Name) and "string" in x.id.lower() for x in ast.walk(pat))
-        ctx.check("C04.e.literal-text-verbatim", EVAL, "eval_expression", "`$name` is rewritten outside string literals only", skips,
+        ctx.check(rule, EVAL, "eval_expression", "`$name` is rewritten outside string literals only", skips,
                   "the rewriting pattern matches string literals as a whole and leaves them unchanged" if skips else
                   "`%s` rewrites `$name` everywhere in the expression text, also inside string literals: a written string that contains `$word` is compared (bound, returned) as "
                   "`var_word`" % first_line(c, 70), line=c.lineno)
